@@ -81,13 +81,41 @@ def run_tlc(module, cfg, name, workers=16, env=None, timeout=3600, java_opts=Non
         cmd += extra
     cmd.append(os.path.join(SPEC, module + ".tla"))
     t = Timer()
-    p = sh(cmd, cwd=meta, env=e)
+    # A model-checking run depends on the specification only (not on /repo): its output is cached in the scratch
+    # directory, keyed by the content of every module, the configuration and the options. A fresh copy has no cache.
+    cache_path = None
+    if not env and os.environ.get("VERIF_TLC_CACHE", "1") != "0":
+        import glob
+        import hashlib
+        h = hashlib.sha256()
+        for f_ in sorted(glob.glob(os.path.join(SPEC, "*.tla"))) + [os.path.join(SPEC, cfg)]:
+            h.update(f_.encode())
+            h.update(open(f_, "rb").read())
+        h.update(json.dumps([module, cfg, extra, jo]).encode())
+        cdir = ensure_dir(os.environ.get("VERIF_TLC_CACHE_DIR") or os.path.join(WORK, "tlc_cache"))
+        cache_path = os.path.join(cdir, h.hexdigest()[:32] + ".out")
+
+    class _P:
+        returncode = 0
+        stdout = ""
+    cached = False
+    if cache_path and os.path.exists(cache_path):
+        p = _P()
+        p.stdout = open(cache_path).read()
+        cached = True
+    else:
+        p = sh(cmd, cwd=meta, env=e)
     r = TlcResult()
     r.wall = t.s()
     r.stdout = p.stdout or ""
     with open(out_path, "w") as f:
         f.write(r.stdout)
     shutil.rmtree(states, ignore_errors=True)
+    if cache_path and not cached and p.returncode == 0 and "Model checking completed. No error has been found." in r.stdout:
+        tmp = cache_path + ".%d.tmp" % os.getpid()
+        with open(tmp, "w") as f:
+            f.write(r.stdout)
+        os.replace(tmp, cache_path)
     for line in r.stdout.splitlines():
         m = _ROW.match(line)
         if m:
@@ -113,7 +141,8 @@ def run_tlc(module, cfg, name, workers=16, env=None, timeout=3600, java_opts=Non
         if not allow_violation:
             tail = "\n".join(l for l in r.stdout.splitlines() if not _ROW.match(l))[-3000:]
             raise ToolError("TLC failed on %s/%s: %s\n%s" % (module, cfg, r.error, tail))
-    log("  tlc %s/%s: %d distinct states, %.1fs%s" % (module, cfg, r.distinct, r.wall, "" if r.ok else " ERROR " + str(r.error)))
+    log("  tlc %s/%s: %d distinct states, %.1fs%s%s" % (module, cfg, r.distinct, r.wall, " (cached output of an identical run)" if cached else "",
+                                                    "" if r.ok else " ERROR " + str(r.error)))
     return r
 
 
